@@ -9,7 +9,7 @@ USES_EXTERNAL = ["ext.Stream.read", "ext.Stream.readline", "ext.errorhandler"]
 TRUSTED = []
 ASSUMPTIONS = ["the stream handed to the reader honours the read/readline contract of DESIGN 3.1 (returns only bytes it consumes, in "
                "order); every short or empty read anywhere is covered by that contract's nondeterminism",
-               "SocketWrapper is shown to refine this contract in C11"]
+               "for the library's own SocketWrapper (plain and chunked) that contract is not assumed but discharged in this check: the safety obligations of its five functions and the refinement lemmas lemma.refines.SocketWrapper.* (progress obligations are left to C02/C04/C11/C12)"]
 ARGUED = ["'successive pairs come from non-overlapping slices in stream order': every returned raw ends at the ghost position pos' and "
           "starts at or after the position pos0 at which that read() began (read.post.raw_is_contiguous_slice_of_stream), and pos never "
           "decreases (read.always.pos_monotone)",
